@@ -40,92 +40,109 @@ Lemma reflag_map b b' segs :
 Proof. rewrite map_map. reflexivity. Qed.
 
 (* ---------- the segmentation loop ---------- *)
+(* it stops when the text or the window (65535 bytes in flight) is exhausted *)
 Lemma seg_loop_flight mss : 0 < mss <= 65485 -> forall fuel t sent,
-  snd_wnd t = 65535 -> rcv_wnd t = 65535 -> wsub (snd_nxt t) (snd_una t) = sent -> 0 <= sent ->
-  sent + zlen (out_text t) <= 65535 -> u32 (snd_nxt t) ->
-  (length (out_text t) < fuel)%nat ->
+  snd_wnd t = 65535 -> rcv_wnd t = 65535 -> wsub (snd_nxt t) (snd_una t) = sent -> 0 <= sent <= 65535 ->
+  u32 (snd_nxt t) -> (length (out_text t) < fuel)%nat ->
+  let m := Z.min (zlen (out_text t)) (65535 - sent) in
   exists segs,
     seg_loop fuel t mss (zlen (out_text t)) =
-    Ok (set_retx (set_snd_nxt (set_out_text t []) (wadd (snd_nxt t) (zlen (out_text t))))
+    Ok (set_retx (set_snd_nxt (set_out_text t (skipn (Z.to_nat m) (out_text t))) (wadd (snd_nxt t) m))
                  (retx t ++ map (fun s => mkTx s true) segs)) /\
-    flight (lport t) (rport t) (rcv_nxt t) (snd_nxt t) segs /\ flight_bytes segs = out_text t.
+    flight (lport t) (rport t) (rcv_nxt t) (snd_nxt t) segs /\
+    flight_bytes segs = firstn (Z.to_nat m) (out_text t).
 Proof.
-  intros Hmss. induction fuel as [|f IH]; intros t sent Hsw Hrw Hfl Hs0 Hroom Hu Hfuel; [lia|].
+  intros Hmss. induction fuel as [|f IH]; intros t sent Hsw Hrw Hfl Hs0 Hu Hfuel m; [lia|].
   cbn [seg_loop]. rewrite Hsw, Hfl.
   pose proof (zlen_nonneg (out_text t)) as Hz.
   set (bytes := Z.min (Z.min mss (Z.max 0 (65535 - sent))) (zlen (out_text t))).
-  assert (Hb : bytes = Z.min mss (zlen (out_text t))) by (subst bytes; lia).
+  assert (Hb : bytes = Z.min mss m) by (subst bytes m; lia).
   destruct (bytes =? 0) eqn:Eb.
-  { assert (Ho : out_text t = []) by (apply zlen_zero_nil; lia).
-    exists []. cbn [map flight flight_bytes concat]. rewrite Ho. splits; auto.
-    f_equal. tcb_eq; rewrite ?app_nil_r; auto.
-    change (zlen (@nil Z)) with 0. symmetry. apply wadd_0_u32, Hu. }
+  { assert (Hm0 : m = 0) by lia.
+    exists []. rewrite Hm0. cbn [Z.to_nat skipn firstn map flight flight_bytes concat]. splits; auto.
+    f_equal. tcb_eq; rewrite ?app_nil_r; auto. symmetry. apply wadd_0_u32, Hu. }
   replace (65535 <? bytes + 20) with false by lia.
   set (text := firstn (Z.to_nat bytes) (out_text t)).
   set (h := hb_wnd (hb_ack (hb t (snd_nxt t)) (rcv_nxt t)) (rcv_wnd t)).
   set (t3 := set_retx _ _).
-  assert (Htl : zlen text = bytes) by (subst text; rewrite zlen_firstn; lia).
+  assert (Hbm : 0 < bytes <= m) by (subst m; lia).
+  assert (Htl : zlen text = bytes) by (subst text m; rewrite zlen_firstn; lia).
   assert (Hrest : zlen (out_text t3) = zlen (out_text t) - bytes).
-  { subst t3; tcb_simpl. rewrite zlen_skipn. lia. }
+  { subst t3; tcb_simpl. rewrite zlen_skipn. subst m. lia. }
   destruct (IH t3 (sent + bytes)) as (segs & E & F & B).
   - exact Hsw.
   - exact Hrw.
-  - subst t3; tcb_simpl. rewrite wsub_spec, wadd_spec. rewrite wsub_spec in Hfl. unfold u32, M32 in *. lia.
-  - lia.
-  - rewrite Hrest. lia.
+  - subst t3; tcb_simpl. rewrite wsub_spec, wadd_spec. rewrite wsub_spec in Hfl. subst m. unfold u32, M32 in *. lia.
+  - subst m. lia.
   - subst t3; tcb_simpl. apply wadd_u32.
-  - subst t3; tcb_simpl. rewrite skipn_length. unfold zlen in *. lia.
-  - exists (mkSeg h text :: segs).
-    rewrite <- Hrest, E. splits.
+  - subst t3; tcb_simpl. rewrite skipn_length. unfold zlen in *. subst m. lia.
+  - cbv zeta in E, B. rewrite Hrest in E, B.
+    replace (Z.min (zlen (out_text t) - bytes) (65535 - (sent + bytes))) with (m - bytes) in E, B by (subst m; lia).
+    exists (mkSeg h text :: segs).
+    rewrite E. splits.
     + f_equal. subst t3. tcb_eq.
-      * rewrite wadd_wadd. f_equal. rewrite zlen_skipn. lia.
+      * rewrite wadd_wadd. f_equal. lia.
+      * rewrite skipn_skipn. f_equal. lia.
       * rewrite <- app_assoc. reflexivity.
     + cbn [flight s_hdr s_text]. rewrite Htl. splits; try lia.
       * subst h. unfold data_hdr, hb. rewrite Hrw. reflexivity.
       * exact F.
     + unfold flight_bytes in *. cbn [map concat s_text]. rewrite B. subst t3 text; tcb_simpl.
-      apply firstn_skipn.
+      rewrite firstn_app_slice. f_equal. lia.
 Qed.
 
-(* segments() of a quiescent sender that has just been handed at most one window of text *)
+(* segments() of a quiescent sender that has just been handed text: the first window of it *)
 Lemma segments_flight t bytes :
   st t = Established -> oneshot t = [] -> retx t = [] -> out_text t = bytes -> fin_pending t = false ->
   snd_wnd t = 65535 -> rcv_wnd t = 65535 -> snd_una t = snd_nxt t -> u32 (snd_nxt t) ->
-  100 <= mtu t <= 65535 -> 0 < zlen bytes <= 65535 ->
+  100 <= mtu t <= 65535 -> 0 < zlen bytes ->
+  let m := Z.min (zlen bytes) 65535 in
   exists segs,
     tcb_segments t =
-    Ok (set_rto (set_retx (set_snd_nxt (set_out_text (set_oneshot t []) []) (wadd (snd_nxt t) (zlen bytes)))
+    Ok (set_rto (set_retx (set_snd_nxt (set_out_text (set_oneshot t []) (skipn (Z.to_nat m) bytes))
+                                       (wadd (snd_nxt t) m))
                           (map (fun s => mkTx s false) segs)) RTO, segs) /\
-    flight (lport t) (rport t) (rcv_nxt t) (snd_nxt t) segs /\ flight_bytes segs = bytes /\ segs <> [].
+    flight (lport t) (rport t) (rcv_nxt t) (snd_nxt t) segs /\
+    flight_bytes segs = firstn (Z.to_nat m) bytes /\ segs <> [].
 Proof.
-  intros Est Hone Hretx Hout Hf Hsw Hrw Hun Hu Hm Hn.
+  intros Est Hone Hretx Hout Hf Hsw Hrw Hun Hu Hm Hn m.
   unfold tcb_segments. tcb_simpl. rewrite Est, Hone. cbn [segmentizes map]. unfold SPACE_FOR_HEADERS.
   replace (mtu t <? 50) with false by lia.
   set (t0 := set_oneshot t []).
   destruct (seg_loop_flight (mtu t - 50) ltac:(lia) (Datatypes.S (length (out_text t0))) t0 0)
     as (segs & E & F & B); try assumption; try reflexivity.
   - subst t0; tcb_simpl. rewrite Hun. apply wsub_diag.
-  - subst t0; tcb_simpl. rewrite Hout. lia.
   - lia.
-  - change (out_text t0) with (out_text t) in *. change (snd_nxt t0) with (snd_nxt t) in *.
+  - lia.
+  - cbv zeta in E, B.
+    change (out_text t0) with (out_text t) in *. change (snd_nxt t0) with (snd_nxt t) in *.
     change (retx t0) with (retx t) in *. rewrite E. clear E.
-    rewrite Hout, Hretx in *. cbn [app].
+    rewrite Hout, Hretx in *. cbn [app]. rewrite Z.sub_0_r in *. fold m in B |- *.
     assert (Hne : segs <> []).
-    { intros ->. assert (zlen bytes = 0) by (rewrite <- B; reflexivity). lia. }
+    { intros ->. assert (Hz : zlen (firstn (Z.to_nat m) bytes) = 0) by (rewrite <- B; reflexivity).
+      rewrite zlen_firstn in Hz. subst m. lia. }
     exists segs. split; [|auto]. subst t0.
     unfold queue_pending_fin. tcb_simpl. rewrite Hf. cbn [andb]. tcb_simpl.
     rewrite filter_needs_true, map_tseg_mk, reflag_map.
     destruct segs as [|s0 r]; [congruence|]. reflexivity.
 Qed.
 
-(* the second emission after the retransmission timer fired: the whole flight again *)
+(* the second emission after the retransmission timer fired: the whole flight again, and
+   nothing new because either the text or the window is exhausted *)
 Lemma segments_retransmit t segs :
-  out_text t = [] -> fin_pending t = false -> segmentizes (st t) = true -> 50 <= mtu t ->
+  fin_pending t = false -> segmentizes (st t) = true -> 100 <= mtu t ->
+  Z.min (Z.max 0 (snd_wnd t - wsub (snd_nxt t) (snd_una t))) (zlen (out_text t)) = 0 ->
   oneshot t = [] -> retx t = map (fun s => mkTx s true) segs -> segs <> [] ->
   tcb_segments t = Ok (set_rto (set_retx (set_oneshot t []) (map (fun s => mkTx s false) segs)) RTO, segs).
 Proof.
-  intros Ho Hf Hs Hm Hone Hretx Hne. rewrite segments_nothing_new by assumption.
-  rewrite Hone, Hretx. cbn [map app]. rewrite filter_needs_true, map_tseg_mk, reflag_map.
+  intros Hf Hs Hm Hnone Hone Hretx Hne.
+  unfold tcb_segments. tcb_simpl. rewrite Hs, Hone. cbn [map]. unfold SPACE_FOR_HEADERS.
+  replace (mtu t <? 50) with false by lia.
+  cbn [seg_loop]. tcb_simpl.
+  match goal with |- context [Z.min (Z.min ?a ?b) ?r] =>
+    replace (Z.min (Z.min a b) r) with 0 by (pose proof (zlen_nonneg (out_text t)); lia) end.
+  cbn [Z.eqb]. unfold queue_pending_fin. tcb_simpl. rewrite Hf. cbn [andb]. tcb_simpl.
+  rewrite Hretx, filter_needs_true, map_tseg_mk, reflag_map. cbn [app].
   destruct segs; [congruence|]. reflexivity.
 Qed.
 
